@@ -13,3 +13,13 @@ func (res *Response) VerifFraming() (chunked, chunkChecked, headEncoded bool) {
 
 // VerifCached returns the parser's pooled cache handle (nil if none).
 func (p *Parser) VerifCached() *[]byte { return p.bytesCached }
+
+// VerifPendingBody returns the BodyReader of the request under construction (nil if none).
+func VerifPendingBody(p Processor) *BodyReader {
+	sp, ok := p.(*ServerProcessor)
+	if !ok || sp.request == nil || sp.request.Body == nil {
+		return nil
+	}
+	br, _ := sp.request.Body.(*BodyReader)
+	return br
+}
